@@ -81,6 +81,10 @@ InitPermsEnvQ == { f \in InitPermsEnv : HashCv(f) % 3 = 0 }
 \* the orderings of one tall tent (curve 1 of Alpha8d, at grid point 2) and three medium tents (curve 5, at grid point 6)
 InitTallMedium == { f \in InitAll : SortAsc(f[1]) = <<1, 5, 5, 5>> }
 
+\* four tents at grid points 2, 3, 5 and 8 (curves 1, 2, 4, 7 of Alpha8 / Alpha8d): unevenly spread peaks - the
+\* rejection bounds do not fall on grid points and several passes reject something, so the convergence criteria decide
+InitSpread == { f \in InitAll : f[1] \in { <<1, 2, 4, 7>>, <<7, 4, 1, 2>> } }      \* two orderings (outlier last / first)
+
 \* C06-focused next-state relation: rich FDWRA parameters, range updates and time-domain masks only
 \* to diversify the states FDWRA starts from
 NextC06 ==
@@ -96,4 +100,6 @@ NextManualOnly == \E r \in Ranges, b \in Boxes : ManualSession(r, b)
 SThrHalf == <<1, 2>>      \* grid step 0.02 Hz: 0.01 Hz = half a step
 SThrQuarter == <<1, 4>>   \* grid step 0.04 Hz
 SThrOne == <<1, 1>>       \* grid step 0.01 Hz
+SThrFive == <<5, 1>>      \* grid step 0.002 Hz: the change of the standard deviation is usually below 0.01 Hz, so the RELATIVE
+                          \* change of |mean fn - mean-curve peak| decides the convergence
 =============================================================================
